@@ -485,6 +485,7 @@ pub trait ChangeEvent {
         Self: Sized;
 }
 
+#[cfg(not(leptos_verif))]
 impl ChangeEvent for web_sys::Element {
     fn attach_change_event<T, W>(
         &self,
